@@ -149,10 +149,19 @@ pub fn run_spaces(prop: &str, spaces: Vec<Space>, opts: &Opts, rep: &Report) {
 pub fn run(opts: &Opts) -> i32 {
     let rep = Report::new("C01", "model_checking", opts);
     rep.set("exhaustive", true);
-    rep.set("rule", "states = canonical (replica storages sorted, chain) reached by every history of create/update/delete/1MB-update/sync actions up to the depth bound; every transition executes the real Replica; oracle on every state: replica invariant + quiescence convergence + chain replay; non-trivial = a state whose quiescing run has to rebase pending operations over unseen versions, or that contains a sync that produced >= 2 versions");
+    rep.set("rule", "states = canonical (replica storages sorted, chain) reached by every history of create/update/delete/1MB-update/sync actions up to the depth bound; every transition executes the real Replica; oracle on every state: replica invariant + quiescence convergence + chain replay; plus, from every state of a small two-replica space, both replicas syncing at once under every interleaving of their server requests; non-trivial = a state whose quiescing run has to rebase pending operations over unseen versions, or that contains a sync that produced >= 2 versions");
     rep.assume("harness chain server implements docs/src/sync-protocol.md (accept iff parent == latest or chain empty)");
     rep.assume("timestamps from {1,2} s, values from {a,b,absent}, one oversized (1 000 001 byte) value, 1-2 tasks, 2-4 replicas");
     let sp = if opts.replay.is_some() { vec![] } else { spaces(opts.tier) };
     run_spaces("C01", sp, opts, &rep);
+    if opts.replay.is_none() && std::env::var("TCMC_SPACE").is_err() {
+        // synchronizations that overlap in time are histories too: from every state of a small
+        // two-replica space, both replicas sync at once, under every interleaving of their server
+        // requests (engine and scenario of C02; one replica's version is then rejected)
+        let q = opts.tier == Tier::Quick;
+        let starts = super::c02::start_states(2, if q { 4 } else { 5 }, small_updates(), 0, false);
+        let deadline = std::time::Instant::now() + std::time::Duration::from_secs_f64((opts.budget_s - rep.elapsed()).max(5.0));
+        super::c02::race_space("C01", &rep, opts, "R2-overlapping-syncs", &starts, super::syncworld::Urg::None, if q { 4 } else { 5 }, 2, deadline);
+    }
     rep.finish()
 }
